@@ -9,7 +9,7 @@ from ..framework import rule
 from ..guards import branch_outcome
 from ..linexpr import Lin, atom_name, cmp_norm, lin
 from .C16 import struct_members
-from .common import CT, LX, ckey
+from .common import witness_instance, CT, LX, ckey
 
 P = "C05"
 EXPLANATION = (
@@ -590,7 +590,7 @@ def d5_11(ctx):
         ("alias", raw(0x00C4, sc=0), {"alias": True}), ("base tag", raw(0x00C4, sc=BASE_TAG_BIT if isinstance(BASE_TAG_BIT, int) else 0), {"alias": not isinstance(BASE_TAG_BIT, int)}),
     ]
     for label, rt, want in cases:
-        kind, res = run_function(ctx, lx.module, ct, {"self": Obj(), ct.args.args[1].arg: "T", ct.args.args[2].arg: rt}, call_hook=hook, deep=False)
+        kind, res = run_function(ctx, lx.module, ct, {"self": witness_instance(lx), ct.args.args[1].arg: "T", ct.args.args[2].arg: rt}, call_hook=hook, deep=False)
         key = ckey(lx.key + "._create_tag", f"witness:{label}")
         if kind == "unknown":
             ctx.undecided(key, ct, f"_create_tag not foldable on {label}: {res}")
@@ -612,7 +612,7 @@ def d5_11(ctx):
         ("UDT 0x234 [3] @20", _st.pack("<HHI", 3, 0xA234, 20), {"offset": 20, "tag_type": "struct", "array": 3, "type_class": ("array", 3, ("struct-class", 0x234))}, None),
     ]
     for label, info, want, extra in mcases:
-        kind, res = run_function(ctx, lx.module, mi, {"self": Obj(), mi.args.args[1].arg: info}, call_hook=hook, deep=False)
+        kind, res = run_function(ctx, lx.module, mi, {"self": witness_instance(lx), mi.args.args[1].arg: info}, call_hook=hook, deep=False)
         key = ckey(lx.key + "._parse_template_data_member_info", f"witness:{label}")
         if kind == "unknown":
             ctx.undecided(key, mi, f"member record not foldable on {label}: {res}")
@@ -726,7 +726,7 @@ def d5_13(ctx):
             return UNKNOWN
 
         key = ckey(lx.key + "._parse_template_data", f"witness:{label}")
-        kind, res = run_function(ctx, lx.module, fn, {"self": Obj(), fn.args.args[1].arg: data, fn.args.args[2].arg: template, fn.args.args[3].arg: st}, call_hook=hook, deep=False)
+        kind, res = run_function(ctx, lx.module, fn, {"self": witness_instance(lx), fn.args.args[1].arg: data, fn.args.args[2].arg: template, fn.args.args[3].arg: st}, call_hook=hook, deep=False)
         if kind == "unknown":
             ctx.undecided(key, fn, f"_parse_template_data not foldable on {label}: {res}")
             return
